@@ -186,18 +186,38 @@ def masked_divisions(node):
     return []
 
 
+NON_ELEMENTWISE = {'sum', 'prod', 'mean', 'average', 'median', 'std', 'var', 'max', 'min', 'amax', 'amin', 'nanmax', 'nanmin', 'nansum', 'argmax', 'argmin', 'cumsum', 'cumprod', 'dot',
+                   'matmul', 'trapz', 'interp', 'sort', 'argsort', 'flip', 'roll', 'diff', 'gradient', 'concatenate', 'stack', 'vstack', 'hstack', 'unique', 'any', 'all', 'nonzero',
+                   'take', 'searchsorted', 'convolve', 'cross', 'outer', 'einsum', 'allclose', 'array_equal', 'linspace', 'arange', 'meshgrid', 'reshape', 'ravel', 'flatten', 'transpose'}
+
+
 def non_pointwise(f):
+    """constructs that make element i of the result depend on other elements of the inputs (or on their number): reductions, re-orderings, indexing, loops, and branches on the data.
+    Elementwise numpy functions (ufuncs, the three-argument np.where, maximum / minimum / clip, ...) are fine."""
     bad = []
     nodes = []
+    params = {a.arg for a in f.args.args + f.args.kwonlyargs}
     for st in f.body:
         nodes.extend(ast.walk(st))
     for nd in nodes:
-        if isinstance(nd, (ast.Subscript, ast.For, ast.While, ast.If, ast.ListComp)):
+        if isinstance(nd, (ast.Subscript, ast.For, ast.While, ast.ListComp)):
             bad.append(f'{type(nd).__name__}@{nd.lineno}')
+        if isinstance(nd, ast.If):
+            # a branch on a flag / on `x is None` is not data-dependent; an ordering test on values is
+            t = nd.test
+            data_dep = any(isinstance(x, ast.Compare) and any(isinstance(o, (ast.Lt, ast.LtE, ast.Gt, ast.GtE, ast.Eq, ast.NotEq)) for o in x.ops)
+                           and not any(isinstance(c, ast.Constant) and c.value is None for c in [x.left] + x.comparators) for x in ast.walk(t))
+            if data_dep:
+                bad.append(f'If@{nd.lineno}')
         if isinstance(nd, ast.Call):
             fn_ = ast.unparse(nd.func)
-            if fn_.startswith('np.') and fn_.split('.')[-1] not in ('sqrt', 'abs', 'sin', 'cos', 'exp', 'sign', 'real', 'imag', 'zeros_like', 'ones_like'):
+            last = fn_.split('.')[-1]
+            if (fn_.startswith('np.') or fn_.startswith('numpy.')) and last in NON_ELEMENTWISE:
                 bad.append(f'{fn_}@{nd.lineno}')
+            if (fn_.startswith('np.') or fn_.startswith('numpy.')) and last == 'where' and len(nd.args) != 3:
+                bad.append(f'{fn_} (index form)@{nd.lineno}')
+            if isinstance(nd.func, ast.Attribute) and last in NON_ELEMENTWISE and not (fn_.startswith('np.') or fn_.startswith('numpy.')) and isinstance(nd.func.value, ast.Name) and nd.func.value.id in params:
+                bad.append(f'{fn_}()@{nd.lineno}')          # method form on an argument: x.sum(), x.max()
     return bad
 
 
